@@ -211,7 +211,9 @@ func main() {
 	stats := map[string]any{}
 	configs := []LoadConfig{{Dir: *repo}}
 	if *tier == "thorough" {
-		configs = append(configs, LoadConfig{Dir: *repo, Tests: true}, LoadConfig{Dir: *repo, GOARCH: "386"})
+		// GOARCH=386 is not a configuration the repository itself builds for (the generated SQL
+		// parser overflows int there: `GOARCH=386 go build ./...` fails), so it is not analysed
+		configs = append(configs, LoadConfig{Dir: *repo, Tests: true})
 	}
 	var cfgNames []string
 	for _, lc := range configs {
